@@ -65,7 +65,10 @@ func (f *NameField) GenEncodeInto() (string, error) {
 
 func (f *NameField) GenReadFrom() (string, error) {
 	var g strErrBuf
-	const Temp = `value.{{.Name}} = make(enc.Name, l/2+1)
+	const Temp = `if l > enc.TLNum(reader.Length()-reader.Pos()) {
+		err = io.ErrUnexpectedEOF
+	} else {
+	value.{{.Name}} = make(enc.Name, l/2+1)
 	startName := reader.Pos()
 	endName := startName + int(l)
 	for j := range value.{{.Name}} {
@@ -84,6 +87,7 @@ func (f *NameField) GenReadFrom() (string, error) {
 	}
 	if err == nil && reader.Pos() != endName {
 		err = enc.ErrBufferOverflow
+	}
 	}
 	`
 	t := template.Must(template.New("NameEncodeInto").Parse(Temp))
